@@ -111,6 +111,10 @@ theorem protocol_roundtrip (ps : List Pkt) (h : ∀ x ∈ ps, Fits x) :
   readAll_roundtrip bytesRead_spec ps (ps.length + 1) (encode ps) trivial rfl
     (fun x hx => ⟨h x hx, Or.inl trivial⟩) (Nat.lt_succ_self _)
 
+/-- Non-vacuity: `0005a`, flush, the empty pkt-line `0004`, `0006bc`. -/
+example : readAll bytesRead 5 ⟨none, encode [some [97], none, some [], some [98, 99]]⟩
+    = ([some [97], none, some [], some [98, 99]], .hangup) := by decide
+
 /-- **`ReceivableProtocol.read` is a blocking read of the stream, whatever the fragments.**  For any
 buffer state and any list of non-empty fragments still to be delivered by `recv`, `read(n)`
 (`n > 0`) returns exactly the next `n` bytes of the concatenated stream (fewer only at EOF) and
